@@ -89,8 +89,12 @@ def e_bits(rep, bits: int) -> bytes:
     return int(bits).to_bytes(CODE_SIZE[rep], 'big')
 
 
-def encode_set(set_type, set_name, template, objects) -> bytes:
-    """template: [(label, count, rep, units)]; objects: [((o, c, ident), [list of values | None per attribute])]"""
+NUMERIC_CODES = (FSINGL, FDOUBL, SSHORT, SNORM, SLONG, USHORT, UNORM, ULONG, UVARI, ORIGIN, STATUS)
+
+
+def encode_set(set_type, set_name, template, objects, marks=None) -> bytes:
+    """template: [(label, count, rep, units)]; objects: [((o, c, ident), [list of values | None per attribute])]
+    marks: a list that receives (offset, length, name) of every stored attribute value ('val#...' numeric, 'val...' text)."""
     out = bytearray()
     out += bytes([0xF8]) + e_ident(set_type) + e_ident(set_name)          # SET: type + name
     for label, count, rep, units in template:
@@ -112,11 +116,17 @@ def encode_set(set_type, set_name, template, objects) -> bytes:
                 out += bytes([0x00])                                  # absent attribute
                 continue
             if len(val) != count:
-                out += bytes([0x29]) + e_uvari(len(val))              # count + value
+                out += bytes([0x29])                                  # count + value
+                if marks is not None:
+                    marks.append((len(out), 1, f'val#.{set_type}.{label}.count'))
+                out += e_uvari(len(val))
             else:
                 out += bytes([0x21])                                  # value only
             for v in val:
-                out += e_value(rep, v)
+                ev = e_value(rep, v)
+                if marks is not None and ev:
+                    marks.append((len(out), len(ev), ('val#.' if rep in NUMERIC_CODES else 'val.') + f'{set_type}.{label}'))
+                out += ev
     return bytes(out)
 
 
@@ -141,10 +151,10 @@ def ref_value(rep, bits):
 def gen_bits(rng, rep, x_hint=None):
     """A well-defined bit pattern for the code (no NaN/denormal/reserved patterns: those are C07's business)."""
     if rep == FSINGL:
-        v = x_hint if x_hint is not None else rng.wpick([(5, rng.uniform(-5000, 5000)), (1, 0.0), (1, rng.uniform(-1, 1) * 1e-3), (1, rng.uniform(-1, 1) * 1e6)])
+        v = x_hint if x_hint is not None else rng.wpick([(10, rng.uniform(-5000, 5000)), (2, 0.0), (1, -0.0), (2, rng.uniform(-1, 1) * 1e-3), (2, rng.uniform(-1, 1) * 1e6)])
         return struct.unpack('>L', struct.pack('>f', v))[0]
     if rep == FDOUBL:
-        v = x_hint if x_hint is not None else rng.wpick([(5, rng.uniform(-5000, 5000)), (1, 0.0), (1, rng.uniform(-1, 1) * 1e-9), (1, rng.uniform(-1, 1) * 1e12)])
+        v = x_hint if x_hint is not None else rng.wpick([(10, rng.uniform(-5000, 5000)), (2, 0.0), (1, -0.0), (2, rng.uniform(-1, 1) * 1e-9), (2, rng.uniform(-1, 1) * 1e12)])
         return struct.unpack('>Q', struct.pack('>d', v))[0]
     if rep == ISINGL:
         from worlds.bit import ibm_encode, gen_word
@@ -180,28 +190,29 @@ def logical_records(model):
     for li, lf in enumerate(model['lfs']):
         o = lf['origin']
         lf_ref = {'first_record': len(recs), 'frames': []}
+        mk = []
         fh = encode_set('FILE-HEADER', str(li), [('SEQUENCE-NUMBER', 1, ASCII, ''), ('ID', 1, ASCII, '')],
-                        [((o, 0, str(li)), [[f'{li + 1:>10}'], [lf['id'].ljust(65)[:65]]])])
-        recs.append({'eflr': True, 'type': 0, 'raw': fh, 'what': ('FILE-HEADER', li)})
+                        [((o, 0, str(li)), [[f'{li + 1:>10}'], [lf['id'].ljust(65)[:65]]])], mk)
+        recs.append({'eflr': True, 'type': 0, 'raw': fh, 'what': ('FILE-HEADER', li), 'marks': mk})
         ct = lf.get('ctime', [2015, 0, 8, 16, 4, 57, 12, 0])
         org = encode_set('ORIGIN', '', ORIGIN_TEMPLATE, [((o, 0, 'DLIS_DEFINING_ORIGIN'), [
             [lf['id']], [''], [1], [li + 1], ['DEPTH-LOG'], ['verif'], ['v0'], None, [tuple(ct)], ['0000'], None, ['1'], None,
-            [lf.get('well', 'WELL 1')], [lf.get('field', 'FIELD')], [440], ['Producer'], [lf.get('company', 'COMPANY')], ['PF'], None])])
-        recs.append({'eflr': True, 'type': 1, 'raw': org, 'what': ('ORIGIN', li)})
+            [lf.get('well', 'WELL 1')], [lf.get('field', 'FIELD')], [440], ['Producer'], [lf.get('company', 'COMPANY')], ['PF'], None])], mk := [])
+        recs.append({'eflr': True, 'type': 1, 'raw': org, 'what': ('ORIGIN', li), 'marks': mk})
         if lf.get('params'):
             objs = [((o, 0, p[0]), [[p[2]], None, None, None, [p[1]]]) for p in lf['params']]
-            recs.append({'eflr': True, 'type': 5, 'raw': encode_set('PARAMETER', '', PARAM_TEMPLATE, objs), 'what': ('PARAMETER', li)})
+            recs.append({'eflr': True, 'type': 5, 'raw': encode_set('PARAMETER', '', PARAM_TEMPLATE, objs, mk := []), 'what': ('PARAMETER', li), 'marks': mk})
         chans = lf['channels']
         cobjs = []
         for ch in chans:
             cobjs.append(((o, 0, ch['name']), [[ch.get('long', ch['name'])], None, [ch['rep']], [ch.get('units', '')] if ch.get('units') is not None else None,
                                               list(ch['dims']), None, list(ch['dims']), None]))
-        recs.append({'eflr': True, 'type': 3, 'raw': encode_set('CHANNEL', '', CHANNEL_TEMPLATE, cobjs), 'what': ('CHANNEL', li)})
+        recs.append({'eflr': True, 'type': 3, 'raw': encode_set('CHANNEL', '', CHANNEL_TEMPLATE, cobjs, mk := []), 'what': ('CHANNEL', li), 'marks': mk})
         fobjs = []
         for fr in lf['frames']:
             fobjs.append(((o, 0, fr['name']), [[fr.get('desc', '')] if fr.get('desc') is not None else None,
                                               [(o, 0, chans[c]['name']) for c in fr['channels']], ['BOREHOLE-DEPTH'], None, None, None, None, None]))
-        recs.append({'eflr': True, 'type': 4, 'raw': encode_set('FRAME', '', FRAME_TEMPLATE, fobjs), 'what': ('FRAME', li)})
+        recs.append({'eflr': True, 'type': 4, 'raw': encode_set('FRAME', '', FRAME_TEMPLATE, fobjs, mk := []), 'what': ('FRAME', li), 'marks': mk})
         counters = [0] * len(lf['frames'])
         for fr in lf['frames']:
             lf_ref['frames'].append({'name': fr['name'], 'channels': [chans[c] for c in fr['channels']], 'rows': [], 'records': []})
@@ -262,6 +273,16 @@ def build(model):
     by, layout = P.build(pm)
     layout['lfs'] = ref
     layout['what'] = [r['what'] for r in recs]
+    # the stored attribute values of the metadata records, as file positions (a value may straddle two segments: its first
+    # byte decides)
+    for r, rl in zip(recs, layout['records']):
+        for off, ln, name in r.get('marks', ()):
+            acc = 0
+            for sg in rl['segs']:
+                if off < acc + sg['data_len']:
+                    layout['fields'].append((sg['data_pos'] + off - acc, min(ln, acc + sg['data_len'] - off), name))
+                    break
+                acc += sg['data_len']
     return by, layout
 
 
@@ -270,7 +291,7 @@ CH_NAMES = ['DEPT', 'TIME', 'GR', 'CAL', 'TENS', 'RHOB', 'NPHI', 'TDEP', 'INDEX'
 UNITS_POOL = ['m', 'ft', 's', 'gAPI', 'in', 'lbf', 'g/cm3', '', '0.1 in', 'ms']
 
 
-def gen_lf(rng, li, max_frames=30, names_pool=None, origin=None):
+def gen_lf(rng, li, max_frames=30, names_pool=None, origin=None, waves=False):
     pool = list(names_pool or CH_NAMES)
     rng.shuffle(pool)
     nft = rng.wpick([(6, 1), (3, 2), (1, 3)])
@@ -289,11 +310,19 @@ def gen_lf(rng, li, max_frames=30, names_pool=None, origin=None):
             rep = rng.pick(FRAME_CODES) if c else rng.wpick([(4, FSINGL), (3, FDOUBL), (1, ISINGL), (1, SLONG), (1, ULONG), (1, UNORM)])
             if c == 0:
                 dims = [1]
+                if waves and rng.chance(0.3):
+                    # a frame type without an index channel (RP66V1 5.7.1: the index is then the frame number): the first channel
+                    # is an ordinary one, possibly a waveform or an image
+                    dims = rng.wpick([(2, [rng.randrange(2, 6)]), (2, [rng.randrange(30, 72)]), (1, [rng.randrange(72, 300)]), (1, [rng.randrange(2, 9), rng.randrange(2, 9)])])
+            elif waves and rng.chance(0.15):
+                dims = rng.wpick([(2, [rng.randrange(30, 72)]), (1, [rng.randrange(72, 300)]), (1, [rng.randrange(4, 12), rng.randrange(4, 12)])])
             else:
                 dims = rng.wpick([(6, [1]), (2, [rng.randrange(2, 6)]), (1, [rng.randrange(2, 4), rng.randrange(2, 4)]), (1, [1, 1])])
             channels.append({'name': name, 'rep': rep, 'dims': dims, 'units': rng.pick(UNITS_POOL), 'long': name + ' long name'})
             idx.append(len(channels) - 1)
         nrows = rng.wpick([(1, 1), (2, rng.randrange(2, 5)), (5, rng.randrange(min(3, max_frames), max_frames + 1))])
+        if any(len(channels[c]['dims']) > 1 or channels[c]['dims'][0] > 29 for c in idx):
+            nrows = min(nrows, 8)
         x0 = rng.pick([100.0, 2889.4, 0.0, 5000.0, 12.5])
         dx = rng.pick([0.5, 1.5, -0.25, 0.1524, 1.0, 10.0])
         fno = rng.pick([1, 1, 1, 0, 7])
@@ -306,7 +335,7 @@ def gen_lf(rng, li, max_frames=30, names_pool=None, origin=None):
                 for d in ch['dims']:
                     count *= d
                 if k == 0:
-                    bits.append([gen_bits(rng, ch['rep'], x_hint=x0 + r * dx if ch['rep'] in (FSINGL, FDOUBL, ISINGL) else 1000 + r * 10)])
+                    bits.append([gen_bits(rng, ch['rep'], x_hint=x0 + r * dx if ch['rep'] in (FSINGL, FDOUBL, ISINGL) else 1000 + r * 10) for _ in range(count)])
                 else:
                     bits.append([gen_bits(rng, ch['rep']) for _ in range(count)])
             rows.append({'fno': fno, 'bits': bits})
@@ -329,9 +358,9 @@ def gen_lf(rng, li, max_frames=30, names_pool=None, origin=None):
             'well': rng.pick(['PRASLIN 1', 'WELL #7', '29/10-3']), 'params': params, 'channels': channels, 'frames': frames, 'order': order}
 
 
-def gen_model(rng, max_frames=30, names_pool=None, max_lfs=3):
+def gen_model(rng, max_frames=30, names_pool=None, max_lfs=3, waves=False):
     sul = P.gen_sul(rng, maxlen=rng.wpick([(4, 8192), (2, 16384), (2, rng.pick([256, 512, 1024, 4096])), (1, rng.randrange(100, 8193) * 2)]))
     nlf = rng.wpick([(6, 1), (3, min(2, max_lfs)), (1, max_lfs)])
     return {'sul': sul, 'trail': rng.chance(0.2),
             'layout': {'seed': rng.getrandbits(32), 'style': rng.wpick([(3, 'mixed'), (1, 'one')]), 'pack': rng.wpick([(3, 'greedy'), (1, 'one'), (2, 'random')])},
-            'lfs': [gen_lf(rng, li, max_frames, names_pool) for li in range(nlf)]}
+            'lfs': [gen_lf(rng, li, max_frames, names_pool, waves=waves) for li in range(nlf)]}
